@@ -491,7 +491,7 @@ def run(tier, seed):
     vlib.conformance(o, FAMILY, TRACE, TCFG, "c07", [from_tlc(s) for s in scheds], tag="tlcgen", env=env)
     vlib.conformance(o, FAMILY, TRACE, TCFG, "c07", random_schedules(seed, 2500 if thorough else 300, thorough, False),
                      tag="random", env=env)
-    conformance_racy(o, random_schedules(seed, 600 if thorough else 120, thorough, True), "conc", cenv, chunk=50)
+    conformance_racy(o, random_schedules(seed, 400 if thorough else 120, thorough, True), "conc", cenv, chunk=50)
     tr = vlib.split_traces(vlib.read_ndjson(vlib.workdir(PID) + "/trace_control.ndjson"))
     vlib.binding_selftest(o, FAMILY, TRACE, TCFG, tr, mutators())
     return vlib.finish(o, "model_checking", RULE,
